@@ -46,6 +46,7 @@ def gen_configs(tier, rng):
                          "where": rng.choice(["ctor", "ctor", "sow"]),
                          # a list of cases over ONE argument may name it by a bare string and list bare values
                          "bare": kind == "cases" and rng.random() < 0.35,
+                         "factory": rng.choice([None, "Runner", "Harvester", "Sampler"]) if extras in ("runner", "runner-override") else None,
                          "resow_after_delete": rng.random() < 0.2 and not (how == "nb" and v is not None and v > n)})
     # invalid requests (rejected by the code, error branch of the model)
     for how, v in [("bs", 0), ("bs", -2), ("nb", 0), ("nb", -1)]:
@@ -100,7 +101,13 @@ def observe(cfg, tmp):
     at_sow = cfg.get("where") == "sow"
     kw = dict(name="c07", parent_dir=parent) if at_sow else dict(name="c07", parent_dir=parent, batchsize=bs, num_batches=nb)
     skw = dict(batchsize=bs, num_batches=nb) if at_sow else {}
-    if farmer is not None:
+    if farmer is not None and cfg.get("factory"):
+        # the crop made by the farmer's own factory method (Runner.Crop / Harvester.Crop / Sampler.Crop)
+        maker = {"Runner": farmer,
+                 "Harvester": xyzpy.Harvester(farmer, data_name=os.path.join(tmp, "hdata")),
+                 "Sampler": xyzpy.Sampler(farmer, data_name=os.path.join(tmp, "sdata.pkl"))}[cfg["factory"]]
+        crop = maker.Crop(**kw)
+    elif farmer is not None:
         crop = C.Crop(farmer=farmer, **kw)
     else:
         crop = C.Crop(fn=_fn, **kw)
